@@ -13,8 +13,6 @@
 EXTENDS ConfigFormat, Json, TLC
 CONSTANTS MaxToks, Mode, Wide
 
-B(str) == str  \* (documentation only)
-
 ValQuick == { <<97>>, <<SP>>, <<TAB>>, <<DQ>>, <<BSL, DQ>>, <<BSL, BSL>>, <<BSL, 110>>, <<BSL, 98>>,
               <<BSL, NL>>, <<SEMI>>, <<NL>>, <<CR, NL>> }
 \*             a       space   tab      "       \"          \\           \n            \b
